@@ -75,12 +75,79 @@ Lemma Gen_fatal_sites :
    ("locRootPath", "log.Panicf")].
 Proof. vm_compute. reflexivity. Qed.
 
+(* The FAULT POINTS.  [gen_fs_call_sites] lists every call of a filesys.FileSystem method on an fSys
+   receiver in the localizer and in the loader code it runs through (translate/localize.go, source
+   order).  [model_fs_sites] says, site by site, which definition of Fs/Localize.v issues the
+   corresponding effect — or why the site lies outside the model (remote references only).  The
+   obligation: the two tables agree site for site, so a call added to or removed from the source
+   breaks it.  [run] numbers the effects a program issues and [fault] fails exactly one of them:
+   every in-model call site is a fault point and every fault point is one of these call sites. *)
+Definition model_fs_sites : list (string * string * string * string) :=
+  [("util.go", "createNewDir", "Exists", "prelude_checks");
+   ("util.go", "createNewDir", "Mkdir", "prelude_create");
+   ("util.go", "createNewDir", "RemoveAll", "prelude_create");
+   ("util.go", "cleanedRelativePath", "CleanedAbs", "cleaned_relative_path");
+   ("localizer.go", "Run", "MkdirAll", "localize_tail");
+   ("localizer.go", "Run", "RemoveAll", "localize_tail");
+   ("localizer.go", "Run", "RemoveAll", "localize_tail");
+   ("localizer.go", "localize", "WriteFile", "localize");
+   ("localizer.go", "localizeFileWithContent", "Exists", "outside: remote file");
+   ("localizer.go", "localizeFileWithContent", "MkdirAll", "loc_file_with_content");
+   ("localizer.go", "localizeFileWithContent", "WriteFile", "loc_file_with_content");
+   ("localizer.go", "localizeRoot", "Exists", "outside: remote root");
+   ("localizer.go", "localizeRoot", "MkdirAll", "localize");
+   ("localizer.go", "copyChartHome", "Exists", "copy_chart_home");
+   ("localizer.go", "copyChartHome", "Exists", "copy_chart_home");
+   ("localizer.go", "copyDir", "Walk", "copy_dir");
+   ("localizer.go", "copyDir", "MkdirAll", "copy_entries");
+   ("localizer.go", "copyDir", "ReadFile", "copy_entries");
+   ("localizer.go", "copyDir", "WriteFile", "copy_entries");
+   ("fileloader.go", "newLoaderAtGitClone", "CleanedAbs", "outside: remote root");
+   ("fileloader.go", "Load", "ReadFile", "ldr_load");
+   ("loadrestrictions.go", "RestrictionRootOnly", "CleanedAbs", "ldr_load");
+   ("filesystem.go", "ConfirmDir", "CleanedAbs", "confirm_dir")].
+
+Lemma Gen_fs_call_sites :
+  List.map fst model_fs_sites = gen_fs_call_sites.
+Proof. vm_compute. reflexivity. Qed.
+
+(* the effect signature is exactly the set of methods called at the in-model sites *)
+Definition opcode_name (o : opcode) : string :=
+  match o with
+  | OExists => "Exists" | OMkdir => "Mkdir" | OMkdirAll => "MkdirAll" | OCleanedAbs => "CleanedAbs"
+  | OReadFile => "ReadFile" | OWriteFile => "WriteFile" | ORemoveAll => "RemoveAll" | OWalk => "Walk"
+  end.
+Definition all_opcodes : list opcode :=
+  [OExists; OMkdir; OMkdirAll; OCleanedAbs; OReadFile; OWriteFile; ORemoveAll; OWalk].
+Lemma all_opcodes_complete o : In o all_opcodes.
+Proof. destruct o; cbn; tauto. Qed.
+
+Definition in_model_methods : list string :=
+  List.map (fun t => snd (fst t))
+           (filter (fun t => negb (has_prefix "outside" (snd t))) model_fs_sites).
+
+Lemma Gen_fault_points :
+  (* every in-model call site calls a method of the effect signature … *)
+  forallb (fun m => existsb (fun o => String.eqb (opcode_name o) m) all_opcodes) in_model_methods = true /\
+  (* … and every effect of the signature is called at some in-model site *)
+  forallb (fun o => existsb (String.eqb (opcode_name o)) in_model_methods) all_opcodes = true.
+Proof. vm_compute. split; reflexivity. Qed.
+
 (* ------------------------------------------------------------------ interpreter *)
 
 Lemma run_op {A} ch fault (e : eff) (k : eres -> prog A) w :
   (forall c, e <> EChoose c) ->
   run ch fault (Op e k) w = let '(w', r) := step_world fault e w in run ch fault (k r) w'.
 Proof. destruct e; intros H; try reflexivity. exfalso; eapply H; eauto. Qed.
+
+Lemma every_call_faultable (e : eff) (w : world) :
+  (forall c, e <> EChoose c) ->
+  step_world (Some (w_n w)) e w =
+  (mkW (w_fs w) (S (w_n w)) (mkEv (eff_op e) (eff_path e) (res_ok (fail_res e)) :: w_trace w), fail_res e).
+Proof.
+  intros H. unfold step_world, fault_hit. rewrite Nat.eqb_refl.
+  destruct e; try reflexivity. exfalso; eapply H; eauto.
+Qed.
 
 Lemma run_choose {A} ch fault cands (k : eres -> prog A) w :
   run ch fault (Op (EChoose cands) k) w = run ch fault (k (RPick (ch (w_trace w) cands))) w.
@@ -456,7 +523,7 @@ Section Safety.
   (* ---- single steps ---- *)
 
   Definition read_only (e : eff) : bool :=
-    match e with EExists _ | EIsDir _ | ECleanedAbs _ | EReadFile _ | EWalk _ => true | _ => false end.
+    match e with EExists _ | ECleanedAbs _ | EReadFile _ | EWalk _ => true | _ => false end.
 
   Lemma exec_read_only e s : read_only e = true -> fst (exec e s) = s.
   Proof.
@@ -1211,7 +1278,7 @@ Qed.
 
 Lemma step_ro_inv fault e w w1 r :
   step_world fault e w = (w1, r) -> read_only e = true ->
-  w_fs w1 = w_fs w /\ (r = RFail \/ r = snd (exec e (w_fs w))).
+  w_fs w1 = w_fs w /\ (r = fail_res e \/ r = snd (exec e (w_fs w))).
 Proof.
   intros H R. unfold step_world in H.
   destruct (fallible e && fault_hit fault (w_n w))%bool.
@@ -1278,7 +1345,8 @@ Lemma step_mkdir_cases fault e p w :
   (snd (step_world fault e w) = RFail /\ w_fs (fst (step_world fault e w)) = w_fs w).
 Proof.
   intros He. unfold step_world.
-  destruct (fallible e && fault_hit fault (w_n w))%bool; [right; auto|].
+  destruct (fallible e && fault_hit fault (w_n w))%bool;
+    [right; destruct He; subst; auto|].
   assert (X : exec e (w_fs w) = match fs_mkdir (w_fs w) p with Some s' => (s', RUnit) | None => (w_fs w, RFail) end)
     by (destruct He; subst; reflexivity).
   rewrite X. destruct (fs_mkdir (w_fs w) p); cbn; auto.
@@ -1491,7 +1559,8 @@ Lemma step_mut_res fault e w w1 r :
   exec e (w_fs w) = (w_fs w1, RUnit).
 Proof.
   intros He H ->. unfold step_world in H.
-  destruct (fallible e && fault_hit fault (w_n w))%bool; [inv H|].
+  destruct (fallible e && fault_hit fault (w_n w))%bool;
+    [destruct He as [[p ->]|[p [c ->]]]; cbn in H; inv H|].
   destruct (exec e (w_fs w)) as [s' r'] eqn:E. inv H. reflexivity.
 Qed.
 
@@ -1563,7 +1632,6 @@ Proof.
   intros Hc [Hm Hr]. unfold step_world in *.
   destruct (fallible e && fault_hit fault (w_n w))%bool; [reflexivity|].
   destruct e; cbn [exec] in *.
-  - reflexivity.
   - reflexivity.
   - destruct (fs_mkdir (w_fs w) p); cbn in *; auto. specialize (Hm eq_refl). discriminate.
   - destruct (fs_mkdir (w_fs w) p); cbn in *; auto. specialize (Hm eq_refl). discriminate.
